@@ -574,6 +574,13 @@ impl MutableArchive {
         // Ensure tables are loaded
         self.ensure_tables_loaded()?;
 
+        // Names and (compressed / encrypted) contents are obtained through `self.archive`.
+        // That object was opened before this session's modifications: write them out and
+        // look at the file as it is now, otherwise files added, replaced or renamed in this
+        // session are dropped or come back with their old content.
+        self.flush()?;
+        self.archive = Archive::open(&self._path)?;
+
         // Create a temporary file in the same directory as the archive
         let archive_dir = self
             ._path
